@@ -323,6 +323,19 @@ func (m *model) apply(o op, stamp int, res *eng.Result) (*viol, string, string) 
 		return nil, ev, oc
 	case opIns, opUpd, opDel, opUpdU:
 		return m.write(o, stamp, res)
+	case opFail:
+		if res.Panic != nil {
+			return errViol(res, "an unknown-column error, no panic"), "fail", ""
+		}
+		if res.Err == nil {
+			return &viol{"statement", "result", "missing-error", res.Summary(), "unknown column error"}, "fail", ""
+		}
+		// like a read that returns nothing: under autocommit=0 / inside a transaction it may have
+		// begun the transaction and looked at t (widens what later reads may see, never narrows)
+		m.ensureTx(s)
+		m.touch(s, 0)
+		m.endStatement(s)
+		return nil, "fail", "failed"
 	}
 	return nil, "none", ""
 }
